@@ -387,6 +387,14 @@ Fixpoint expand_all (k : nat) (i : nat) (mesgnum : N) (fs : list field) (acc : l
     end
   end.
 
+(* ---------------------------------------------------------------- the decoder's clock *)
+(* a compressed header: timestamp += (offset - lastTimeOffset) & 0x1F in byte arithmetic; lastTimeOffset = offset *)
+Definition clock_compressed (ts lto header : N) : N * N :=
+  let off := N.land header CompressedTimeMask in
+  (wrap 32 (ts + N.land (wrap 8 (off + 256 - lto)) CompressedTimeMask), off).
+(* a uint32 timestamp field: timestamp = t; lastTimeOffset = t & 0x1F *)
+Definition clock_full (t : N) : N * N := (t, N.land t CompressedTimeMask).
+
 (* ---------------------------------------------------------------- fields *)
 Definition bt_size_div (size base : N) : outcome bool :=     (* fieldDef.Size % baseType.Size() == 0, a real division *)
   if bt_size base =? 0 then Panic P_DivZero else Ok (size mod bt_size base =? 0).
@@ -408,7 +416,7 @@ Fixpoint decode_fields (c : dcfg) (s : dstate) (arch mesgnum : N) (fds : list fd
     let '(v, s) := r in
     let v := if negb (rb =? base) then convert_bytes_to_value (slice_u8 v) arch base else v in
     let s := match v with
-             | VNum TU32 t => if f_num f =? FieldNumTimestamp then upd_time s t (N.land t CompressedTimeMask) else s
+             | VNum TU32 t => if f_num f =? FieldNumTimestamp then upd_time s (fst (clock_full t)) (snd (clock_full t)) else s
              | _ => s end in
     let s := if fb_accum (f_fb f) && c_expand c then upd_acc s (collect_accumulable (s_acc s) mesgnum (f_num f) v) else s in
     decode_fields c s arch mesgnum rest (fs ++ [set_value f v])
@@ -487,9 +495,9 @@ Definition decode_data (c : dcfg) (s : dstate) (header : N) : outcome dstate :=
   | None => Err E_MesgDefMissing
   | Some d =>
     if compressed then
-      let off := N.land header CompressedTimeMask in
-      let ts := wrap 32 (s_ts s + N.land (wrap 8 (off + 256 - s_lto s)) CompressedTimeMask) in
-      let s := upd_time s ts off in
+      let ck := clock_compressed (s_ts s) (s_lto s) header in
+      let ts := fst ck in
+      let s := upd_time s ts (snd ck) in
       let tf := create_field (md_num d) FieldNumTimestamp in
       let tf := if f_known tf then tf else set_fb tf (with_type (f_fb tf) bt_uint32 pt_DateTime (fb_array (f_fb tf))) in
       decode_data_body c s header d [set_value tf (VNum TU32 ts)]
